@@ -72,7 +72,7 @@ def renamed_helpers(facts, norm):
             moved.setdefault((np_.rsplit('::', 1)[-1], sig), []).append(np_)
     new = [np_ for np_ in present if np_ not in base]
     for np_ in new:
-        d = json.loads(facts._raw[present[np_]][0])
+        d = facts.load_dicts(present[np_])[0]
         # a rename keeps arity, return type AND parameter types (a helper that merges two old ones, or passes its
         # inputs differently, is a new function: it is spliced into its callers instead)
         sig = (d['nargs'], d['locals'][0], ' | '.join(d['locals'][1:d['nargs'] + 1]))
@@ -237,7 +237,7 @@ def inline_new_helpers(facts, d, norm, depth=0, stack=()):
                 if len(paths) != 1 or len(facts._raw[paths[0]]) != 1:
                     continue
                 import json
-                cd = json.loads(facts._raw[paths[0]][0])
+                cd = facts.load_dicts(paths[0])[0]
                 if cd['kind'] not in ('Fn', 'AssocFn') or cd.get('expn') or cd['nargs'] != len(t['args']):
                     continue
                 if cst.get('trait') and cst.get('ga') and cst['ga'][0] != 'Self':
@@ -415,7 +415,7 @@ def _emit_fn_value_call(facts, d, norm, fop, arg_ops, dest, target, ln, depth):
         paths = [dp] if dp in facts._raw else facts.norm_index.get(norm(dp), [])
         if len(paths) != 1 or len(facts._raw[paths[0]]) != 1:
             return None
-        cd = json.loads(facts._raw[paths[0]][0])
+        cd = facts.load_dicts(paths[0])[0]
         if cd['nargs'] != len(arg_ops) + 1:
             return None
         cd = prepare_body(facts, cd, norm, depth + 1)
@@ -442,7 +442,7 @@ def _emit_fn_value_call(facts, d, norm, fop, arg_ops, dest, target, ln, depth):
                                'target': target, 'unwind': None, 'ln': ln, 'x': False, 'fx': False})
         paths = facts.norm_index.get(norm(c['fn']), [])
         if len(paths) == 1 and len(facts._raw[paths[0]]) == 1:
-            cd = json.loads(facts._raw[paths[0]][0])
+            cd = facts.load_dicts(paths[0])[0]
             if cd['kind'] in ('Fn', 'AssocFn') and cd['nargs'] == len(arg_ops):
                 inline_once(d, b, prepare_body(facts, cd, norm, depth + 1))
         return b
